@@ -16,12 +16,23 @@
 // iteration the same `idx` as iteration `i` of the run on `s`. Every check below holds for every `[v, a, b]`,
 // so no iteration of any run indexes out of bounds. (n = 0 never reaches the function: `write_event` tests
 // `!buckets.is_empty()`, and the function's loops do not execute.)
+//
+// OUTCOME (Kani 0.68 / CBMC 6.11, `--no-overflow-checks` because Kani's NaN / float-overflow checks flag the NaN
+// that min == max produces on purpose):
+//   c13_term_sparkline_nonfinite  SUCCESSFUL, 27 s  - register this one (class: some sample NaN or infinite)
+//   c13_term_sparkline_index      no answer in 1200 s (full domain)              - NOT registered
+//   c13_term_sparkline_extremes   no answer in 1200 s / 900 s (cadical, minisat) - NOT registered
+// The all-finite classes hinge on `mn <= v <= mx ==> v - mn <= mx - mn` (monotone rounding of two independent
+// subtractions): as a stand-alone 3-variable query it got no answer in 900 s from cadical, minisat, kissat nor in 600 s
+// from z3 (`--smt2 --fpa`), while `0 <= x <= y ==> x / y <= 1` (3-8 s) and `0 <= q <= 1 ==> ceil(q * 6) as usize <= 6`
+// (2 s) are immediate. So for finite samples the index bound is NOT covered (f64).
 
 mod proofs {
     use super::*;
 
-    /// No `[v, a, b]` makes `write_timeseries` panic (index out of bounds on BLOCKS, arithmetic, slice), and
-    /// what it appends is exactly one 3-byte glyph of the table per sample followed by one `\n`.
+    /// NOT REGISTERED (no answer in 20 min). No `[v, a, b]` makes `write_timeseries` panic (index out of bounds on
+    /// BLOCKS, arithmetic, slice), and what it appends is exactly one 3-byte glyph of the table per sample followed
+    /// by one `\n`.
     #[cfg_attr(kani, kani::proof)]
     #[cfg_attr(kani, kani::unwind(5))]
     pub fn c13_term_sparkline_index() {
@@ -49,5 +60,59 @@ mod proofs {
         kani::cover!(v == a && a == b);
         kani::cover!(out[2] == 0x87 && out[5] == 0x81, "maximum sample gets the last glyph, minimum the first");
         kani::cover!(v.is_infinite() && a.is_finite());
+    }
+
+    /// Class 1 of the split: some sample is NaN or infinite (both signs, every NaN payload). Complete for this class.
+    #[cfg_attr(kani, kani::proof)]
+    #[cfg_attr(kani, kani::unwind(5))]
+    pub fn c13_term_sparkline_nonfinite() {
+        let v: f64 = kani::any();
+        let a: f64 = kani::any();
+        let b: f64 = kani::any();
+        kani::assume(!(v.is_finite() && a.is_finite() && b.is_finite()));
+        let samples = [v, a, b];
+
+        let mut buf = Buffer::no_color();
+        write_timeseries(&mut buf, &samples);
+
+        let out = buf.as_slice();
+        assert!(out.len() == 3 * 3 + 1);
+        assert!(out[9] == b'\n');
+        kani::cover!(true);
+        kani::cover!(v.is_nan() && a.is_finite() && b.is_finite());
+        kani::cover!(v.is_finite() && a.is_infinite() && b.is_finite());
+    }
+
+    /// NOT REGISTERED (no answer in 15-20 min). Class 2 of the split: a two-sample series `[v, a]` of unconstrained f64, so each sample is the minimum or the
+    /// maximum of its series (or both: v == a, the 0/0 case). By the reduction above this covers, in a series of any
+    /// length, every sample that attains the series' minimum or maximum - the samples for which the quotient is
+    /// 0/r, r/r or 0/0. (The seeded change C13-r4-1, `(v - min) * (6 / range)`, overflows the table exactly there.)
+    #[cfg_attr(kani, kani::proof)]
+    #[cfg_attr(kani, kani::unwind(4))]
+    pub fn c13_term_sparkline_extremes() {
+        let v: f64 = kani::any();
+        let a: f64 = kani::any();
+        let samples = [v, a];
+
+        let mut buf = Buffer::no_color();
+        write_timeseries(&mut buf, &samples);
+
+        let out = buf.as_slice();
+        assert!(out.len() == 2 * 3 + 1);
+        assert!(out[6] == b'\n');
+        kani::cover!(true);
+        kani::cover!(v.is_finite() && a.is_finite() && v < a);
+        kani::cover!(v == a);
+    }
+
+    // ---- replay table (generated by tools/mktable.py) ----
+    pub fn run(name: &str) -> bool {
+        match name {
+            "c13_term_sparkline_index" => c13_term_sparkline_index(),
+            "c13_term_sparkline_nonfinite" => c13_term_sparkline_nonfinite(),
+            "c13_term_sparkline_extremes" => c13_term_sparkline_extremes(),
+            _ => return false,
+        }
+        true
     }
 }
